@@ -10,14 +10,14 @@ VARIABLE l
 TraceLog == ndJsonDeserialize(IOEnv.TRACE)
 
 Blank ==
-  /\ flat' = <<>> /\ cur' = <<>> /\ cont' = <<>> /\ mode' = "blank"
+  /\ flat' = <<>> /\ cur' = <<>> /\ cont' = <<>> /\ mode' = "blank" /\ ebase' = <<"slice", 0>>
   /\ obs' = [a |-> "none", arg |-> [x |-> 0],
              exp |-> [ret |-> "ok", val |-> <<>>, out |-> <<>>, content |-> <<>>]]
   /\ des' = [ret |-> "ok", val |-> <<>>, out |-> <<>>, content |-> <<>>]
 
 TraceStep(ev) ==
   CASE ev.a = "none"    -> Blank
-    [] ev.a = "init"    -> InitMsg(ev.arg.data, ev.arg.cut)
+    [] ev.a = "init"    -> InitMsg(ev.arg.data, ev.arg.cut, ev.arg.eb, ev.arg.fb)
     [] ev.a = "qget"    -> QGet(ev.arg.max, ev.arg.qoff, ev.arg.data, ev.arg.pos, ev.arg.take)
     [] ev.a = "read"    -> Read(ev.arg.n, ev.arg.dest)
     [] ev.a = "length"  -> Length
@@ -31,7 +31,7 @@ TraceStep(ev) ==
     [] ev.a = "memrstr" -> Memrstr(ev.arg.set)
     [] ev.a = "memtok"  -> Memtok(ev.arg.hastok, ev.arg.tok, ev.arg.com, ev.arg.esc)
     [] ev.a = "memcpy"  -> Memcpy(ev.arg.n, ev.arg.dcut)
-    [] ev.a = "append"  -> MsgAppend(ev.arg.pre)
+    [] ev.a = "append"  -> MsgAppend(ev.arg.pre, ev.arg.kind, ev.arg.fail)
     [] OTHER            -> FALSE
 
 Matches(ev) ==
